@@ -469,6 +469,31 @@ def run_all(ctx, sessions, st):
                 tie.append(dict(base, impl=diff[:300], what='%s listener: %s' % (L, diff[:300])))
     return failures, tie, dist, n_dgrams
 
+def replay(ctx, path):
+    """re-deliver the recorded history + datagram to the real listener and to the model"""
+    st = exlib.build(ctx, LISTENERS)
+    def rerun(ctx, f):
+        L = f['key']['listener']
+        mode = {k: v for k, v in f['key'].items() if k not in ('listener', 'kind')}
+        hist = f.get('history') if isinstance(f.get('history'), list) else []
+        dg = [('history', bytes.fromhex(x)) for x in hist] + [(f['key'].get('kind', '?'), bytes.fromhex(f['datagram']))]
+        s = {'listener': L, 'mode': mode, 'id': 'replay', 'args': f.get('args', []), 'dgrams': dg}
+        fl, tie, _, _ = run_all(ctx, [s], st)
+        bad = [x for x in fl + tie if x['index'] == len(dg) - 1]
+        return {'impl': bad[0]['impl'] if bad else 'agrees with the model, survives', 'expected': f.get('expected', ''), 'fails': bool(bad)}
+    for f in json.load(open(path)).get('failures', []):
+        f.setdefault('cmd', '%s listener %s datagram %s' % (f['key'].get('listener'), f.get('args'), f.get('datagram', '')[:120]))
+    body = json.load(open(path))
+    for f in body.get('failures', []):
+        f.setdefault('cmd', '%s listener %s datagram %s' % (f['key'].get('listener'), f.get('args'), f.get('datagram', '')[:120]))
+    tmp = path + '.replaying'
+    json.dump(body, open(tmp, 'w'))
+    try:
+        return replay_generic(ctx, tmp, rerun)
+    finally:
+        import os
+        os.unlink(tmp)
+
 def check(ctx, tier, seed, t0):
     proof = vlib.proof_status(ctx, FILES)
     st = exlib.build(ctx, LISTENERS)
